@@ -333,6 +333,16 @@ func interiorDist(x, a, b Point, minDist s1.ChordAngle, alwaysUpdate bool) (s1.C
 	qr := 1 - math.Sqrt(cx.Norm2()/c2)
 	dist := s1.ChordAngle((xDotC2 / c2) + (qr * qr))
 
+	// If the closest point R is interior to AB then, by the triangle inequality
+	// on chords, XA <= XR + RA <= XR + AB, hence XA^2 <= 2 * (XR^2 + AB^2), and
+	// likewise for XB. When AB is only a few ulps long and X is
+	// next to the antipode of A, the wedge test above is decided by rounding
+	// noise and can accept an "interior" distance of ~0 for a point that is ~pi
+	// away from the whole edge; this consistency test rejects that case.
+	if math.Max(xa2, xb2) > 2*(float64(dist)+ab2)+maxError {
+		return minDist, false
+	}
+
 	if !alwaysUpdate && dist >= minDist {
 		return minDist, false
 	}
